@@ -372,9 +372,17 @@ func genGH(rng *hx.Rng, n int) []string {
 	if rng.Chance(1, 2) { // keys further than 1 apart (a difference comparator then answers other values than -1/1)
 		spread = hx.Pick(rng, []int{2, 10, 1 << 33})
 	}
+	deep := rng.Chance(1, 5) // push-heavy: heaps of four and five levels, more distinct keys
+	if deep {
+		np = rng.Range(6, 30)
+	}
 	for i := 0; i < n; i++ {
 		var op string
-		switch x := rng.Intn(100); {
+		x := rng.Intn(100)
+		if deep && x >= 40 && rng.Chance(2, 3) && i < n*3/4 {
+			x = 0
+		}
+		switch {
 		case x < 40:
 			op = fmt.Sprintf("push %d %d", pushed, (rng.Intn(np)-1)*spread)
 			pushed++
@@ -766,6 +774,10 @@ func genPQ(name string, rng *hx.Rng, n int) []string {
 	ops := []string{head}
 	pushed := 0
 	np := rng.Range(2, 6)
+	deep := rng.Chance(1, 5) // push-heavy: heaps of four and five levels, more distinct priorities
+	if deep {
+		np = rng.Range(6, 30)
+	}
 	// the pool of priorities of this history; bounds are drawn from the same pool (plus one beyond)
 	var pool []string
 	subSecond := name == "tpq" && rng.Chance(1, 3) // instants 1 ns apart inside one second (a comparison at a coarser granularity merges them)
@@ -796,6 +808,9 @@ func genPQ(name string, rng *hx.Rng, n int) []string {
 		x := rng.Intn(100)
 		if name == "tpq" && x >= 45 && x < 65 {
 			x = rng.Intn(45) // no handles on the timed queue
+		}
+		if deep && x >= 45 && rng.Chance(2, 3) && i < n*3/4 {
+			x = 0
 		}
 		switch {
 		case x < 45:
